@@ -112,6 +112,12 @@ def compute_hypervolume(
         # reference_point does not have nan, thanks to the verification above.
         return float("inf")
 
+    # A point on the boundary of the reference box dominates no volume. It must be removed
+    # because inf * 0 (a point with -inf in another objective) would otherwise yield nan.
+    loss_vals = loss_vals[np.all(loss_vals < reference_point, axis=-1)]
+    if loss_vals.shape[0] == 0:
+        return 0.0
+
     if not assume_pareto:
         unique_lexsorted_loss_vals = np.unique(loss_vals, axis=0)
         on_front = _is_pareto_front(unique_lexsorted_loss_vals, assume_unique_lexsorted=True)
